@@ -6,7 +6,7 @@ from .core import (I, Agg, Ref, Opaque, UNINIT, UNIT, NONE, mk_enum, some, paylo
 from .managed import ManagedWorld, FRESH
 from . import explore
 
-GHOST_KEYS = ('objs', 'closed_ret', 'idleq', 'trail', 'resizes', 'hand', 'flags', 'retained_ids', 'created_at', 'met_shadow')
+GHOST_KEYS = ('objs', 'closed_ret', 'idleq', 'trail', 'resizes', 'hand', 'flags', 'retained_ids', 'created_at', 'met_shadow', 'pool_gone')
 
 
 def dur(secs, nanos=0):
@@ -81,6 +81,14 @@ class ManagedBSE:
 
     # ------------------------------------------------------------- actions
     def actions(s, st):
+        if st.gget('pool_gone'):
+            # every pool handle is gone: the objects that are still out can only be used, returned (= dropped) or taken
+            acts = [('step', t) for t in s.tasks if st.threads[t].stack and not s.blocked(st, t)]
+            for t in s.tasks:
+                if st.threads[t].stack or not st.threads[t].local['objs']: continue
+                acts.append(('drop', t, 0))
+                if s.cfg['take']: acts.append(('take', t, 0))
+            return acts
         if st.gget('pool') is None: return []
         acts = []
         for t in s.tasks + ['C']:
@@ -106,6 +114,9 @@ class ManagedBSE:
             for a in s.cfg['ctl']:
                 if a == 'resize':
                     for n in s.cfg['resize_targets']: acts.append(('resize', n))
+                elif a == 'drop_pool':
+                    # the last handle can only go away while no get() future (which borrows a handle) exists
+                    if not any('fut' in st.threads[t].local or st.threads[t].stack for t in s.tasks): acts.append((a,))
                 else:
                     acts.append((a,))
         return acts
@@ -131,6 +142,14 @@ class ManagedBSE:
         st = st.clone()
         st.log = st.log + (('act',) + tuple(a),)
         st.gset('last', None); st.gset('seen', ())
+        if a[0] == 'drop_pool':
+            proot = st.gget('pool'); pool = st.heap.pop(proot)
+            st.gset('pool_gone', True); st.gset('pool', None); st.threads['C'].local['nctl'] += 1
+            outs = []
+            for st1, r in s.W.drop(st, 'C', [pool]):
+                st1.gset('last', {'act': a, 'op': a, 'task': 'C', 'res': ('ok',) if r and r[0] == 'ok' else ('panic',), 'done': True})
+                outs.append(st1)
+            return outs
         t = s.thread_of(a)
         th = st.threads[t]; th.at_point = None
         if a[0] == 'step':
@@ -404,8 +423,24 @@ class ManagedBSE:
             d['model'] = {'max_size': m.eval(ms, model_completion=True).as_long()} if m is not None else {}
         return d
 
+    def check_gone(s, st):
+        """after the last pool handle is gone (C06: objects that outlive every handle can still be used and dropped safely)"""
+        out = []; O = s.cfg['oracles']; p = 'C06' if 'C06' in O else O[0]
+        if st.gget('deadpool_panics'): out.append(s.vio(p, 'panic raised inside deadpool after the last pool handle was dropped: ' + st.gget('deadpool_panics')[-1], st)); return out
+        last = st.gget('last') or {}
+        if last.get('res') and last['res'][0] == 'panic': out.append(s.vio(p, f'{last.get("act")} panicked after the last pool handle was dropped', st)); return out
+        objs = st.gget('objs', {})
+        for o, r in objs.items():
+            if r['destroyed'] > 1: out.append(s.vio(p, f'object {o} destroyed twice', st))
+        if not any(st.threads[t].stack or st.threads[t].local['objs'] for t in s.tasks):
+            for o, r in objs.items():
+                # (a value handed out by take() is dropped by the harness right away, so every object ends destroyed exactly once)
+                if r['destroyed'] != 1: out.append(s.vio(p, f'after the pool was dropped and every outstanding object was returned or taken, object {o} was destroyed {r["destroyed"]} times', st))
+        return out
+
     def check(s, st0, a, st):
         out = []
+        if st.gget('pool_gone'): return s.check_gone(st)
         if st.gget('pool') is None: return out
         O = s.cfg['oracles']; last = st.gget('last') or {}
         ms = st.gget('max_size')
@@ -798,6 +833,11 @@ def _digest(s, st0, a, st):
             idleq.append(oid)
             if last.get('after_close'):
                 vio('C06', f'object {oid} returned after close() is kept by the closed pool')
+    # ---- is_closed(): false until close() is called, true once it has returned (and for ever after)
+    if a[0] == 'is_closed' and res and res[0] == 'ok' and done:
+        val = res[1]
+        if st0.gget('closed_ret') and val is not True: vio('C06', 'is_closed() is false after close() returned')
+        if not st.gget('close_started') and val is not False: vio('C06', 'is_closed() is true although close() was never called')
     # ---- retain
     if a[0] == 'retain' and res and res[0] == 'ok' and done:
         pr = tuple(last['pred_removed']); rm = tuple(last['removed'])
